@@ -652,3 +652,111 @@ Proof.
   destruct (Z.eqb (fst (totals cs)) 0); [right; reflexivity |].
   destruct (Z.eqb (snd (totals cs)) 0); [left | right]; reflexivity.
 Qed.
+
+Lemma sum_found_nonzero : forall cs, (forall c, In c cs -> well_formed c) ->
+  (sum_found cs <> 0 <-> exists c, In c cs /\ fst c <> 0).
+Proof.
+  induction cs as [| c cs IH]; intros W; cbn [sum_found].
+  - split; [intros H; contradiction | intros (c & [] & _)].
+  - assert (P : 0 <= fst c) by (pose proof (W c (or_introl eq_refl)) as X; unfold well_formed in X; lia).
+    assert (Q : 0 <= sum_found cs).
+    { clear IH P. induction cs as [| d cs IH]; cbn [sum_found]; [lia |].
+      assert (0 <= fst d) by (pose proof (W d (or_intror (or_introl eq_refl))) as X; unfold well_formed in X; lia).
+      assert (0 <= sum_found cs) by (apply IH; intros c' [<- | H']; apply W; [left | right; right]; auto).
+      lia. }
+    specialize (IH (fun c' H => W c' (or_intror H))). split.
+    + intros H. destruct (Z.eq_dec (fst c) 0) as [E | E].
+      * assert (S : sum_found cs <> 0) by lia. apply IH in S. destruct S as (d & Hd & Nd).
+        exists d. split; [right; assumption | assumption].
+      * exists c. split; [left; reflexivity | assumption].
+    + intros (d & [<- | Hd] & Nd); [lia |].
+      assert (S : sum_found cs <> 0) by (apply IH; exists d; auto). lia.
+Qed.
+
+(* the form used in Props/C05.v: everything spelled out *)
+Lemma main_exit_char : forall cs : list contract,
+  (forall c, In c cs -> Z.of_nat (List.length (snd c)) <= fst c) ->
+  (main_exit cs = 0 <->
+     (exists c, In c cs /\ fst c <> 0) /\
+     (forall c, In c cs -> Z.of_nat (List.length (snd c)) = fst c /\ forall r, In r (snd c) -> r = EX_PASS)).
+Proof.
+  intros cs W. rewrite (main_exit_zero_iff cs W). rewrite (sum_found_nonzero cs W). reflexivity.
+Qed.
+
+Lemma main_exit_nonzero : forall cs : list contract,
+  (forall c, In c cs -> Z.of_nat (List.length (snd c)) <= fst c) ->
+  ((exists c r, In c cs /\ In r (snd c) /\ r <> EX_PASS) \/
+   (exists c, In c cs /\ Z.of_nat (List.length (snd c)) < fst c) \/
+   (forall c, In c cs -> fst c = 0)) ->
+  main_exit cs = 1.
+Proof.
+  intros cs W H. destruct (main_exit_range cs) as [E | E]; [| assumption]. exfalso.
+  apply (main_exit_char cs W) in E. destruct E as ((c0 & Hc0 & N0) & A).
+  destruct H as [(c & r & Hc & Hr & Nr) | [(c & Hc & L) | Z0]].
+  - destruct (A c Hc) as [_ P]. apply Nr, P, Hr.
+  - destruct (A c Hc) as [P _]. lia.
+  - apply N0, Z0, Hc0.
+Qed.
+
+Local Close Scope Z_scope.
+
+(* ------------------------------------------------------------------ statements about paths, for Props *)
+
+Lemma model_pass_iff : forall ps,
+  fst (model_verdict ps) = LPass <->
+  (forall p, In p ps -> potential p = true -> ans p = Unsat) /\
+  (forall p, In p ps -> kind p = Stuck -> ans p = Unsat) /\
+  (exists p, In p ps /\ kind p = Success).
+Proof. intros. rewrite model_verdict_label. apply spec_pass_iff. Qed.
+
+Lemma model_verdict_cases : forall ps,
+  let S := existsb (fun p => potential p && is_sat (ans p)) ps in
+  let E := existsb (fun p => potential p && is_err (ans p)) ps in
+  let K := existsb (fun p => potential p && is_unknown (ans p)) ps in
+  let T := existsb confirmed_stuck ps in
+  let N := existsb succeeded ps in
+  (S = true -> model_verdict ps = (LFail, EX_COUNTEREXAMPLE)) /\
+  (S = false -> E = true -> model_verdict ps = (LError, EX_EXCEPTION)) /\
+  (S = false -> E = false -> K = true -> model_verdict ps = (LTimeout, EX_TIMEOUT)) /\
+  (S = false -> E = false -> K = false -> T = true -> model_verdict ps = (LError, EX_STUCK)) /\
+  (S = false -> E = false -> K = false -> T = false -> N = false -> model_verdict ps = (LError, EX_REVERT_ALL)) /\
+  (S = false -> E = false -> K = false -> T = false -> N = true -> model_verdict ps = (LPass, EX_PASS)).
+Proof.
+  intros ps. cbv zeta. rewrite model_verdict_counts.
+  pose proof (chain_cases (Z.of_nat (pot_cnt is_sat ps)) (Z.of_nat (pot_cnt is_unsat ps)) (Z.of_nat (pot_cnt is_unknown ps))
+                (Z.of_nat (pot_cnt is_err ps)) (Z.of_nat (cnt confirmed_stuck ps)) (Z.of_nat (cnt succeeded ps))
+                ltac:(lia) ltac:(lia) ltac:(lia) ltac:(lia) ltac:(lia)) as H.
+  cbv zeta in H. destruct H as (H1 & H2 & H3 & H4 & H5 & H6).
+  unfold pot_cnt in *.
+  repeat split; intros;
+    repeat match goal with
+           | X : existsb _ _ = true |- _ => apply cnt_pos in X
+           | X : existsb _ _ = false |- _ => apply cnt_zero in X
+           end;
+    [apply H1 | apply H2 | apply H3 | apply H4 | apply H5 | apply H6]; lia.
+Qed.
+
+Lemma schedule_failsafe : forall ee ps sched r,
+  result (run ee ps sched) = Some r ->
+  (fst r = LPass <-> spec_verdict ps = LPass) /\ (snd r = EX_PASS <-> spec_verdict ps = LPass).
+Proof.
+  intros ee ps sched r H. destruct (schedule_sound _ _ _ _ H) as [-> | (_ & SF & -> & _)].
+  - split; [rewrite model_verdict_label; reflexivity | apply model_verdict_code].
+  - rewrite SF. split; split; intros X; discriminate X.
+Qed.
+
+Lemma schedule_no_stuck : forall ee ps sched r,
+  (forall p, In p ps -> kind p <> Stuck) ->
+  result (run ee ps sched) = Some r -> r = model_verdict ps.
+Proof.
+  intros ee ps sched r NS H. destruct (schedule_sound _ _ _ _ H) as [-> | (_ & _ & _ & (p & Hin & K))].
+  - reflexivity.
+  - exfalso. apply (NS p Hin K).
+Qed.
+
+Lemma schedule_no_early_exit : forall ps sched r,
+  result (run false ps sched) = Some r -> r = model_verdict ps /\ fst r = spec_verdict ps.
+Proof.
+  intros ps sched r H. destruct (schedule_sound _ _ _ _ H) as [-> | (X & _)]; [| discriminate X].
+  split; [reflexivity | apply model_verdict_label].
+Qed.
